@@ -7,7 +7,7 @@ import ast
 from ..interp import cval, has_const
 from ..source import norm_text
 from .common import walk_no_nested
-from .geo import all_geos, geo_text, under
+from .geo import KIND_ERRORS, all_geos, geo_text, under
 
 TRAJ = 'gemdat.trajectory.Trajectory'
 STORAGE = {'coords', 'coords_are_displacement', 'base_positions', 'lattice', 'lattices', 'species', 'time_step', 'constant_lattice',
@@ -110,6 +110,12 @@ def check(ctx):
     if foreign:
         ctx.assume('in-place writes into third-party objects are not classified: ' + '; '.join(sorted(set(foreign))))
     ctx.ob('R1', 'gemdat', f'{n_attr} attribute stores on trajectory objects', True, 'enumerated over the whole package')
+    seen_v = set()
+    for it in scan:
+        for e in it.events:
+            if e['tag'] == 'isin_set' and e['where'] is not None and e['where'].qualname.startswith(TRAJ + '.') and id(e['node']) not in seen_v:
+                seen_v.add(id(e['node']))
+                ctx.ob('R3', e['where'], e['node'], False, KIND_ERRORS['isin_set'] + ': selecting species given as a set returns an empty trajectory')
     check_constructors(ctx)
     check_slicing(ctx)
 
